@@ -294,12 +294,16 @@ LIT_ALPHA = list('"\'\'",,  \;:ñéü日本ΩaZ09-_/()[]{}<>#&%$?+~^|`') + ['""'
 @st.composite
 def literal_docs(draw):
     """documents in which every cell of the non-kern spines is an opaque literal full of csv-special characters"""
-    P = D.profile('full', types=['**kern', '**text', '**foo', '**silbe', '**dynam'], comments=True, kern_weight=1)
+    P = D.profile('full', types=['**kern', '**text', '**foo', '**silbe', '**dynam', '**mxhm', '**harm', '**fing'], comments=True, kern_weight=1)
     doc = draw(D.documents(P))
     for i, k, c in list(S.cells(doc)):
         if c['k'] == 'text':
             parts = draw(st.lists(st.sampled_from(LIT_ALPHA), min_size=1, max_size=5))
             t = ''.join(parts)
+            if draw(st.integers(0, 3)) == 0:
+                # labels that begin like a note (a pitch letter) and go on with something else: one cell, one literal
+                t = draw(st.sampled_from(['C major', 'D- major-seventh', 'C,E,G', 'Csus4', 'café', 'a tempo', 'G dominant', 'e-moll', 'B♭7', 'f2 f', 'cresc.',
+                                          'dim', 'ff', 'A minor', 'gg#q'])) + (t if draw(st.booleans()) else '')
             t = ' '.join(t.split(' ')) if t.strip() == t and '  ' not in t else t.strip().replace('  ', ' ') or 'x'
             if t[0] in '=*.!' or t != t.strip() or not t:
                 t = 'a' + t.strip()
